@@ -660,3 +660,267 @@ Proof.
   pose proof (spec_step_wf f o s H) as H1. destruct (step spec_impl f o s) as [s1 r]. cbn in H1.
   specialize (IH s1 H1). destruct (run spec_impl f ops s1). exact IH.
 Qed.
+
+(* ------------------------------------------------------------------ (4) aliasing *)
+Fixpoint rename_arg (n m : Z) (a : arg) : arg :=
+  match a with
+  | ALit v => ALit v
+  | AVar x => if Z.eqb x n then AVar m else AVar x
+  | APair k v => APair (rename_arg n m k) (rename_arg n m v)
+  end.
+
+(* use name m wherever name n was used as an operand *)
+Definition rename_op (n m : Z) (o : op) : op :=
+  match o with
+  | OJoinL d b => OJoinL (rename_arg n m d) (rename_arg n m b)
+  | OJoinR a d => OJoinR (rename_arg n m a) (rename_arg n m d)
+  | OFind d k => OFind (rename_arg n m d) (rename_arg n m k)
+  | OAt d k => OAt (rename_arg n m d) (rename_arg n m k)
+  | ODrop k d => ODrop (rename_arg n m k) (rename_arg n m d)
+  | OSize d => OSize (rename_arg n m d)
+  | OEach d => OEach (rename_arg n m d)
+  | OAlias x src => OAlias x (if Z.eqb src n then m else src)
+  | _ => o
+  end.
+
+Lemma rename_arg_eval : forall e n m a, lookup e n = lookup e m -> eval_arg e (rename_arg n m a) = eval_arg e a.
+Proof.
+  intros e n m a H. induction a as [v|x|k IHk v IHv]; cbn.
+  - reflexivity.
+  - destruct (Z.eqb x n) eqn:E; [|reflexivity]. apply Z.eqb_eq in E. subst x. cbn. symmetry. exact H.
+  - rewrite IHk, IHv. reflexivity.
+Qed.
+
+Lemma alias_same : forall D X (I : dict_impl D X) f st n m o,
+  lookup (env st) n = lookup (env st) m -> step I f (rename_op n m o) st = step I f o st.
+Proof.
+  intros D X I f st n m o H. destruct o; cbn [rename_op step]; rewrite ?(rename_arg_eval _ n m _ H); try reflexivity.
+  destruct (Z.eqb m0 n) eqn:E; [|reflexivity]. apply Z.eqb_eq in E. subst m0. rewrite H. reflexivity.
+Qed.
+
+Lemma alias_binds : forall D X (I : dict_impl D X) f st n m v,
+  lookup (env st) m = Some v ->
+  let st' := fst (step I f (OAlias n m) st) in
+  lookup (env st') n = Some v /\ lookup (env st') m = Some v /\ heap st' = heap st.
+Proof.
+  intros D X I f st n m v H. cbn [step]. rewrite H. cbn. rewrite Z.eqb_refl. split; [reflexivity|]. split; [|reflexivity].
+  destruct (Z.eqb n m) eqn:E; [reflexivity | exact H].
+Qed.
+
+Lemma d_get_set_same : forall f d k v, hashable k = true -> d_get f (d_set f d k v) k = Some v.
+Proof.
+  intros f d k v Hk. induction d as [|[k0 v0] d IH]; cbn.
+  - rewrite (keq_refl f k Hk). reflexivity.
+  - destruct (keq f k0 k) eqn:E; cbn; rewrite E; [reflexivity | exact IH].
+Qed.
+
+Lemma nth_set_nth_same : forall {A} (l : list A) i a, (i < length l)%nat -> nth_error (set_nth l i a) i = Some a.
+Proof.
+  intros A l. induction l as [|x l IH]; intros i a H; cbn in H; [lia|].
+  destruct i; cbn; [reflexivity|]. apply IH. lia.
+Qed.
+
+Lemma nth_set_nth_other : forall {A} (l : list A) i j a, i <> j -> nth_error (set_nth l i a) j = nth_error l j.
+Proof.
+  intros A l. induction l as [|x l IH]; intros i j a H; cbn; [reflexivity|].
+  destruct i, j; cbn; try reflexivity; try congruence. apply IH. congruence.
+Qed.
+
+Lemma set_nth_length : forall {A} (l : list A) i a, length (set_nth l i a) = length l.
+Proof. intros A l. induction l as [|x l IH]; intros i a; cbn; [reflexivity|]. destruct i; cbn; [reflexivity|]. rewrite IH. reflexivity. Qed.
+
+(* T10.alias: an update made through name n is read back through name m bound to the same dictionary *)
+Theorem alias_update_visible : forall f st n m l d k v,
+  lookup (env st) n = Some (VRef l) -> lookup (env st) m = Some (VRef l) ->
+  nth_error (heap st) l = Some d -> hashable k = true ->
+  let st' := fst (step (model_impl f) f (OJoinL (AVar n) (ALit (VList [k; v]))) st) in
+  snd (step (model_impl f) f (OFind (AVar m) (ALit k)) st') = RVal v /\
+  snd (step (model_impl f) f (OFind (AVar n) (ALit k)) st') = RVal v.
+Proof.
+  intros f st n m l d k v Hn Hm Hd Hk. cbn [step eval_arg]. rewrite Hn. cbn [pair_of]. unfold store. rewrite Hd.
+  cbn [di_set model_impl]. rewrite Hk. cbn [fst set_heap env heap]. rewrite Hm, Hn.
+  assert (Hl : (l < length (heap st))%nat) by (apply nth_error_Some; congruence).
+  rewrite (nth_set_nth_same (heap st) l (d_set f d k v) Hl). cbn [di_get]. rewrite Hk.
+  rewrite (d_get_set_same f d k v Hk). split; reflexivity.
+Qed.
+
+(* ------------------------------------------------------------------ freshness and frame *)
+Section Fresh.
+  Context {D X : Type} (I : dict_impl D X) (f : flags).
+
+  Lemma eval_lit_copy : forall st site es st' l, lit_copy f = true ->
+    eval_lit I f st site es = Some (st', l) ->
+    l = length (heap st) /\ (exists d, heap st' = heap st ++ [d]) /\ env st' = env st.
+  Proof.
+    intros st site es st' l Hc H. unfold eval_lit in H. destruct (build I (di_empty I) es) as [d|]; [|discriminate].
+    rewrite Hc in H. inversion H; subst. cbn. split; [reflexivity|]. split; [exists d; reflexivity | reflexivity].
+  Qed.
+
+  Lemma eval_lit_len : forall st site es st' l, eval_lit I f st site es = Some (st', l) ->
+    (length (heap st) <= length (heap st'))%nat /\
+    (forall i, (i < length (heap st))%nat -> nth_error (heap st') i = nth_error (heap st) i).
+  Proof.
+    intros st site es st' l H. unfold eval_lit in H. destruct (build I (di_empty I) es) as [d|]; [|discriminate].
+    destruct (lit_copy f).
+    - inversion H; subst. cbn. rewrite app_length. cbn. split; [lia|]. intros i Hi. apply nth_error_app1. exact Hi.
+    - destruct (lookup (shared st) site).
+      + inversion H; subst. split; [lia | reflexivity].
+      + inversion H; subst. cbn. rewrite app_length. cbn. split; [lia|]. intros i Hi. apply nth_error_app1. exact Hi.
+  Qed.
+
+  Lemma store_len : forall st l kv, length (heap (fst (store I st l kv))) = length (heap st).
+  Proof.
+    intros st l kv. unfold store. destruct (nth_error (heap st) l); [|reflexivity].
+    destruct kv as [[k v]|]; [|reflexivity]. destruct (di_set I d k v); [|reflexivity]. cbn. apply set_nth_length.
+  Qed.
+
+  Lemma store_frame : forall st l kv i, i <> l -> nth_error (heap (fst (store I st l kv))) i = nth_error (heap st) i.
+  Proof.
+    intros st l kv i Hi. unfold store. destruct (nth_error (heap st) l); [|reflexivity].
+    destruct kv as [[k v]|]; [|reflexivity]. destruct (di_set I d k v); [|reflexivity]. cbn.
+    apply nth_set_nth_other. congruence.
+  Qed.
+
+  (* the dictionary an operation may modify *)
+  Definition target (o : op) (st : state D) : option nat :=
+    match o with
+    | OJoinL d _ => match eval_arg (env st) d with Some (VRef l) => Some l | _ => None end
+    | OJoinR a d =>
+        match eval_arg (env st) a with
+        | Some (VRef la) => Some la
+        | _ => match eval_arg (env st) d with Some (VRef l) => Some l | _ => None end
+        end
+    | ODrop _ d => match eval_arg (env st) d with Some (VRef l) => Some l | _ => None end
+    | _ => None
+    end.
+
+  Lemma step_len_frame : forall o st,
+    (length (heap st) <= length (heap (fst (step I f o st))))%nat /\
+    (forall i, (i < length (heap st))%nat -> target o st <> Some i ->
+       nth_error (heap (fst (step I f o st))) i = nth_error (heap st) i).
+  Proof.
+    intros o st. destruct o; cbn [step target].
+    - destruct (eval_lit I f st site elems) as [[st' l]|] eqn:E; cbn; [|split; [lia | reflexivity]].
+      destruct (eval_lit_len st site elems st' l E) as [H1 H2]. split; [exact H1 | intros i Hi _; apply H2; exact Hi].
+    - destruct (build I (di_empty I) elems); cbn; split; try lia; reflexivity.
+    - destruct (lookup (env st) f0) as [[]|]; cbn; try (split; [lia | reflexivity]).
+      destruct (lookup (fdefs st) id) as [es|]; cbn; [|split; [lia | reflexivity]].
+      destruct (eval_lit I f st id es) as [[st' l]|] eqn:E; cbn; [|split; [lia | reflexivity]].
+      destruct (eval_lit_len st id es st' l E) as [H1 H2]. split; [exact H1 | intros i Hi _; apply H2; exact Hi].
+    - destruct (lookup (env st) m); cbn; split; try lia; reflexivity.
+    - destruct (eval_arg (env st) d) as [[]|]; cbn; try (split; [lia | reflexivity]).
+      destruct (eval_arg (env st) b); cbn; [|split; [lia | reflexivity]].
+      split; [rewrite store_len; lia|]. intros i Hi Ht. apply store_frame. congruence.
+    - destruct (eval_arg (env st) a) as [av|]; cbn; [|split; [lia | reflexivity]].
+      destruct (eval_arg (env st) d) as [[]|]; cbn; try (destruct av; split; try lia; reflexivity).
+      destruct av; try (destruct (nth_error (heap st) l); cbn; split; try lia; reflexivity).
+      + destruct l0 as [|k [|v [|? ?]]]; try (destruct (nth_error (heap st) l); cbn; split; try lia; reflexivity).
+        split; [rewrite store_len; lia|]. intros i Hi Ht. apply store_frame. congruence.
+      + split; [rewrite store_len; lia|]. intros i Hi Ht. apply store_frame. congruence.
+    - destruct (eval_arg (env st) d) as [[]|]; cbn; try (split; [lia | reflexivity]).
+      destruct (eval_arg (env st) k); cbn; [|split; [lia | reflexivity]].
+      destruct (nth_error (heap st) l); cbn; [|split; [lia | reflexivity]].
+      destruct (di_get I d0 v) as [[]|]; cbn; split; try lia; reflexivity.
+    - destruct (eval_arg (env st) d) as [[]|]; cbn; try (split; [lia | reflexivity]).
+      destruct (eval_arg (env st) k) as [kv|]; cbn; [|split; [lia | reflexivity]].
+      destruct (nth_error (heap st) l) as [d0|]; cbn; [|split; [lia | reflexivity]].
+      destruct kv; cbn; try (split; [lia | reflexivity]).
+      + destruct (di_get I d0 (VInt z)) as [[]|]; cbn; split; try lia; reflexivity.
+      + destruct l0; cbn; [split; [lia | reflexivity]|]. destruct (get_all I d0 (v :: l0)); cbn; split; try lia; reflexivity.
+    - destruct (eval_arg (env st) k) as [kv|]; cbn; [|split; [lia | reflexivity]].
+      destruct (eval_arg (env st) d) as [[]|]; cbn; try (split; [lia | reflexivity]).
+      destruct (nth_error (heap st) l) as [d0|]; cbn; [|split; [lia | reflexivity]].
+      destruct (di_del I d0 kv); cbn; [|split; [lia | reflexivity]].
+      split; [rewrite set_nth_length; lia|]. intros i Hi Ht. apply nth_set_nth_other. congruence.
+    - destruct (eval_arg (env st) d) as [[]|]; cbn; try (split; [lia | reflexivity]).
+      destruct (nth_error (heap st) l); cbn; split; try lia; reflexivity.
+    - destruct (eval_arg (env st) d) as [[]|]; cbn; try (split; [lia | reflexivity]).
+      destruct (nth_error (heap st) l); cbn; split; try lia; reflexivity.
+  Qed.
+
+  (* locations returned by literal evaluations (top level or inside a called function), in order *)
+  Fixpoint fresh_locs (ops : list op) (st : state D) : list nat :=
+    match ops with
+    | [] => []
+    | o :: r =>
+        let '(st1, x) := step I f o st in
+        match o, x with
+        | OLit _ _ _, RVal (VRef l) | OCall _ _, RVal (VRef l) => l :: fresh_locs r st1
+        | _, _ => fresh_locs r st1
+        end
+    end.
+
+  Lemma lit_step_fresh : forall o st l, lit_copy f = true ->
+    (match o with OLit _ _ _ | OCall _ _ => True | _ => False end) ->
+    snd (step I f o st) = RVal (VRef l) ->
+    l = length (heap st) /\ length (heap (fst (step I f o st))) = S (length (heap st)).
+  Proof.
+    intros o st l Hc Ho H. destruct o; try contradiction; cbn [step] in *.
+    - destruct (eval_lit I f st site elems) as [[st' l']|] eqn:E; cbn in *; [|discriminate].
+      inversion H; subst l'. destruct (eval_lit_copy st site elems st' l Hc E) as [H1 [[d H2] H3]].
+      split; [exact H1|]. rewrite H2, app_length. cbn. lia.
+    - destruct (lookup (env st) f0) as [[]|]; cbn in *; try discriminate.
+      destruct (lookup (fdefs st) id) as [es|]; cbn in *; [|discriminate].
+      destruct (eval_lit I f st id es) as [[st' l']|] eqn:E; cbn in *; [|discriminate].
+      inversion H; subst l'. destruct (eval_lit_copy st id es st' l Hc E) as [H1 [[d H2] H3]].
+      split; [exact H1|]. rewrite H2, app_length. cbn. lia.
+  Qed.
+
+  Lemma fresh_locs_bound : forall ops st, lit_copy f = true ->
+    Forall (fun l => (length (heap st) <= l)%nat) (fresh_locs ops st) /\ NoDup (fresh_locs ops st).
+  Proof.
+    induction ops as [|o ops IH]; intros st Hc; cbn [fresh_locs]; [split; constructor|].
+    pose proof (step_len_frame o st) as [Hlen _].
+    pose proof (lit_step_fresh o st) as Hf.
+    destruct (step I f o st) as [st1 x] eqn:Es. cbn in Hlen, Hf.
+    destruct (IH st1 Hc) as [IH1 IH2].
+    assert (Hweak : Forall (fun l => (length (heap st) <= l)%nat) (fresh_locs ops st1)).
+    { eapply Forall_impl; [|exact IH1]. cbn. intros a Ha. lia. }
+    destruct o; try (split; assumption);
+      destruct x as [v| | |]; try (split; assumption);
+      destruct v; try (split; assumption).
+    - destruct (Hf l Hc I eq_refl) as [H1 H2]. split.
+      + constructor; [lia | exact Hweak].
+      + constructor; [|exact IH2]. intro Hin. rewrite Forall_forall in IH1. specialize (IH1 l Hin). lia.
+    - destruct (Hf l Hc I eq_refl) as [H1 H2]. split.
+      + constructor; [lia | exact Hweak].
+      + constructor; [|exact IH2]. intro Hin. rewrite Forall_forall in IH1. specialize (IH1 l Hin). lia.
+  Qed.
+End Fresh.
+
+(* ------------------------------------------------------------------ Each: every binding exactly once *)
+Lemma abs_keys_once : forall f d a k c, good f -> abs d = Some a -> fm_wf a -> norm k = Some c ->
+  length (filter (fun kv => keq f (fst kv) k) d) = (if fm_mem c a then 1 else 0)%nat.
+Proof.
+  intros f d. induction d as [|[k0 v0] d IH]; intros a k c Hg Ha Hw Hk; cbn in Ha.
+  - inversion Ha. reflexivity.
+  - destruct (norm k0) as [c0|] eqn:E0; [|discriminate]. destruct (abs d) as [a0|] eqn:Ea; [|discriminate].
+    inversion Ha; subst a. unfold fm_wf in Hw. cbn in Hw. inversion Hw as [|? ? Hnin Hnd]; subst.
+    cbn [filter fst]. rewrite (keq_norm f k0 k c0 c Hg E0 Hk). unfold fm_mem. cbn [fm_lookup].
+    specialize (IH a0 k c Hg eq_refl Hnd Hk). unfold fm_mem in IH.
+    destruct (key_eqb c0 c) eqn:E.
+    + apply key_eqb_spec in E. subst c0. cbn [length]. rewrite IH.
+      assert (Hn : fm_lookup c a0 = None) by (apply fm_lookup_none; exact Hnin). rewrite Hn. reflexivity.
+    + exact IH.
+Qed.
+
+Lemma each_once : forall f d m k c, good f -> dict_ref d m -> norm k = Some c ->
+  di_visits (model_impl f) d = map (fun kv => mkpair (fst kv) (snd kv)) d /\
+  length (filter (fun kv => keq f (fst kv) k) d) = (match d_get f d k with Some _ => 1 | None => 0 end)%nat /\
+  (forall v, d_get f d k = Some v -> exists k', In (k', v) d /\ keq f k' k = true).
+Proof.
+  intros f d m k c Hg [a [Ha [Hw Hp]]] Hk. split; [reflexivity|]. split.
+  - rewrite (abs_keys_once f d a k c Hg Ha Hw Hk). unfold fm_mem. rewrite (abs_get f d a k c Hg Ha Hk). reflexivity.
+  - clear. induction d as [|[k0 v0] d IH]; cbn; intros v H; [discriminate|].
+    destruct (keq f k0 k) eqn:E.
+    + inversion H; subst. exists k0. split; [left; reflexivity | exact E].
+    + destruct (IH v H) as [k' [H1 H2]]. exists k'. split; [right; exact H1 | exact H2].
+Qed.
+
+(* every dictionary the model can reach is the image of a well-formed finite map *)
+Lemma reachable_ref : forall f ops, sym_guard f = true -> char_guard f = true -> lit_copy f = true ->
+  Forall (fun d => exists m, dict_ref d m) (heap (fst (model_run f ops))).
+Proof.
+  intros f ops Hs Hc Hl. destruct (refine f ops Hs Hc Hl) as [[Hh _] _].
+  induction Hh as [|d m h1 h2 Hd Hh IH]; constructor; [exists m; exact Hd | exact IH].
+Qed.
